@@ -345,7 +345,57 @@ fn parse_request(line: &str) -> Option<(String, Arg)> {
 // implementation side
 // ---------------------------------------------------------------------------------------------
 
+/// Representation invariant of a rope on the implementation side (the `Rope.Stored` of the model:
+/// cached lengths right, windows inside parents, nothing beyond the size limit). `Some(why)` when
+/// it is broken — such a rope must not be flattened (a wrapped `Tiled` length would run away).
+fn rope_defect(d: &BinaryData) -> Option<String> {
+    let mut stack = vec![d];
+    let mut visited = 0usize;
+    while let Some(n) = stack.pop() {
+        visited += 1;
+        if visited > 2_000_000 {
+            return None;
+        }
+        match n {
+            BinaryData::Owned(v) => {
+                if v.len() > MAX {
+                    return Some(format!("owned leaf of {} bytes exceeds the size limit", v.len()));
+                }
+            }
+            BinaryData::Zeroed(l) => {
+                if *l > MAX {
+                    return Some(format!("zeroed leaf of {l} bytes exceeds the size limit"));
+                }
+            }
+            BinaryData::Slice { parent, offset, length } => {
+                if offset.checked_add(*length).is_none_or(|e| e > parent.len()) {
+                    return Some(format!("slice window {offset}+{length} outside its parent of length {}", parent.len()));
+                }
+                stack.push(parent);
+            }
+            BinaryData::Concat { left, right, total_length } => {
+                if left.len().checked_add(right.len()) != Some(*total_length) || *total_length > MAX {
+                    return Some(format!("concat caches length {total_length} for children of {} and {} bytes", left.len(), right.len()));
+                }
+                stack.push(left);
+                stack.push(right);
+            }
+            BinaryData::Tiled { unit, count } => {
+                match unit.len().checked_mul(*count) {
+                    Some(t) if t <= MAX => {}
+                    _ => return Some(format!("tiled node of {} x {count} bytes (cached length {})", unit.len(), n.len())),
+                }
+                stack.push(unit);
+            }
+        }
+    }
+    None
+}
+
 fn render_data(d: &BinaryData) -> String {
+    if let Some(why) = rope_defect(d) {
+        return format!("(ill-formed-rope {})", why.replace(['(', ')'], ""));
+    }
     let n = d.len();
     if n <= BIG {
         let bytes = d.to_vec();
@@ -1262,6 +1312,10 @@ impl Ctx<'_> {
         self.ev.sample_sparse(n, 20000, || json!({"request": req, "impl": io.out, "model": model_out}));
         if kind == "panic" {
             self.report(name, a, "panic", format!("{name} panics on {}: {}", render(a), io.out),
+                json!({"request": req, "impl": io.out, "model": model_out, "build": format!("{how:?}")}));
+        } else if io.out.contains("(ill-formed-rope") {
+            // the implementation-side counterpart of `C12.stored_result`: results are stored ropes
+            self.report(name, a, "ill-formed-result", format!("{name} on {} returns a rope that violates the representation invariant: {}", render(a), clip(&io.out)),
                 json!({"request": req, "impl": io.out, "model": model_out, "build": format!("{how:?}")}));
         } else if let Some(m) = &io.arg_modified {
             self.report(name, a, "argument-modified", format!("{name} on {} modified its argument: {m}", render(a)),
